@@ -11,6 +11,7 @@ UNIT_MODES = {
     'numtraits_fwd': ['dbg', 'rel'],
     'numtraits_int': ['dbg', 'rel'],
     'numtraits_gcd': ['dbg', 'rel'],
+    'numtraits_roots': ['dbg', 'rel'],
     'mul': ['dbg', 'rel'],
     'bits': ['dbg', 'rel'],
     'shift_ops': ['dbg', 'rel'],
